@@ -143,9 +143,16 @@ Lemma script_refused_call s h c :
 Proof.
   intros Hs Hf Hi. destruct Hf as [Ha Hp].
   destruct (analyze_request_invalid c Ha Hi) as (e & Har & Hc).
-  exists e. split; [exact Hc|]. split.
-  - intros -> cap. unfold step. rewrite Hs. unfold call_write_nobody. rewrite Har. reflexivity.
-  - intros -> input cap. unfold step, do_write_body. rewrite Hs. unfold call_write_body. rewrite Har. reflexivity.
+  exists e. split; [exact Hc|].
+  (* the analysis failed, so the call a failed write leaves behind is the call itself *)
+  assert (Hk : call_after_failed_write c = c) by (unfold call_after_failed_write; rewrite Har; reflexivity).
+  assert (Hw : forall h0, h0 = h -> with_obj s (ObCall h0 c) = s).
+  { intros h0 ->. rewrite <- Hs. destruct s; reflexivity. }
+  split.
+  - intros -> cap. unfold step. rewrite Hs. unfold call_write_nobody. rewrite Har. cbn [bind].
+    rewrite Hk, (Hw _ eq_refl). reflexivity.
+  - intros -> input cap. unfold step, do_write_body. rewrite Hs. unfold call_write_body. rewrite Har. cbn [bind].
+    rewrite Hk, (Hw _ eq_refl). reflexivity.
 Qed.
 
 (** Where such script states come from: [new r] then [proceed]. *)
